@@ -1,6 +1,7 @@
 (* Transcode.v — whatever the decoder accepts is a well-formed program for an Encoder (C01 converse). *)
 From Coq Require Import ZArith Bool List Lia ZifyBool.
 From IVG Require Import SF NumCodec Color Calls Decoder Encoder NumBase NumProofs ColorProofs DecProofs EncProofs RoundTrip MetaRT.
+From IVG Require Render GoMath Arc.
 Import ListNotations.
 Local Open Scope Z_scope.
 Ltac Zify.zify_post_hook ::= Z.div_mod_to_equations.
@@ -519,4 +520,15 @@ Proof.
   intros W D. destruct (decoded_is_wellformed b cs W D) as (vb & pal & body & -> & Wv & _ & Vq & Wp & Wc).
   destruct (encode_decode e0 vb pal (map ACall body) Wv Vq Wp (wf_acts_map _ _ Wc)) as (b' & Eb & Ed).
   exists vb, pal, body, b'. split; [reflexivity|]. split; [exact Eb|exact Ed].
+Qed.
+
+(* C07: a Renderer behind encode+decode sees the written-and-read-back form of the program *)
+Theorem via_bytes e0 vb pal body (s : Arc.S) :
+  wf_vb vb -> viewbox_invalid (qvb vb) = false -> wf_pal pal -> wf_acts false body ->
+  exists b, snd (enc_bytes (fst (enc_run e0 (ACall (CReset vb pal) :: body)))) = BytesOk b /\
+            snd (decode_calls [] b) = Done /\
+            Arc.rrun32 s (fst (decode_calls [] b)) = Arc.rrun32 s (CReset (m_vb (meta_of vb pal)) pal :: expect false false body).
+Proof.
+  intros Wv V Wp Wb. destruct (MetaRT.encode_decode e0 vb pal body Wv V Wp Wb) as (b & Eb & Ed).
+  exists b. rewrite Ed. auto.
 Qed.
